@@ -454,3 +454,6 @@ def run(ctx) -> None:
     for name, fn in (("P1", template.rule_P1), ("P2", rule_P2), ("P3", rule_P3), ("P4", rule_P4), ("P5", rule_P5), ("P6", rule_P6), ("P7", rule_P7), ("P8", rule_P8), ("Y2iii", template.rule_Y2iii), ("P9", rule_P9)):
         ctx.rules_run.append(name)
         fn(ctx)
+    from . import phases
+    ctx.rules_run.append("Y7")
+    phases.rule_Y7(ctx)
